@@ -9,7 +9,7 @@ COUNT = {"quick": 300, "thorough": 5000, "search": 1500}
 PARALLEL = True
 DOCUMENTED = ["score", "geom1", "geom2", "subtomo_id", "tomo_id", "object_id", "subtomo_mean", "x", "y", "z",
               "shift_x", "shift_y", "shift_z", "geom3", "geom4", "geom5", "phi", "psi", "theta", "class"]
-RULE = ("tables of N particles (N = 1..40, plus fixed 64/65/256/257/1000 in quick and up to 4099 in thorough) with the 20 fields in a "
+RULE = ("tables of N particles (N = 1..40, plus fixed 64/65/256/257/1000 and one list of 32769..40000 particles in quick, up to 4099 and one of 65537..66000 in thorough) with the 20 fields in a "
         "random column permutation (identity, single transposition or full shuffle); cell values from small integers / normals / "
         "2-3-decimal numbers / float32 half-ulp ties of either sign over the whole exponent range (subnormal, tiny, ordinary, huge) / "
         "underflow range / float32 max / +-0 / NaN holes; repeated rows and repeated id pairs; int64-typed columns; non-default row "
@@ -61,6 +61,12 @@ def _flow(stmts, env, sink):
         elif isinstance(st, ast.AugAssign) and isinstance(st.target, ast.Name):
             cur = env.get(st.target.id, ast.Name(id=st.target.id, ctx=ast.Load()))
             env[st.target.id] = ast.BinOp(left=cur, op=st.op, right=_Inline(env).visit(copy.deepcopy(st.value)))
+        elif isinstance(st, ast.Expr) and isinstance(st.value, ast.Call) and isinstance(st.value.func, ast.Attribute) \
+                and st.value.func.attr in ("append", "extend") and isinstance(st.value.func.value, ast.Name) \
+                and isinstance(env.get(st.value.func.value.id), ast.List) and len(st.value.args) == 1:
+            # `parts = []; for …: parts.append(<block>)` — the list holds what was appended (block-wise writers)
+            lst = env[st.value.func.value.id]
+            env[st.value.func.value.id] = ast.List(elts=list(lst.elts) + [_Inline(env).visit(copy.deepcopy(st.value.args[0]))], ctx=ast.Load())
         elif isinstance(st, (ast.Expr, ast.Return)) and st.value is not None:
             sink(_Inline(env).visit(copy.deepcopy(st.value)))
         for fld in ("body", "orelse", "finalbody"):
@@ -196,6 +202,16 @@ end CryoCat.Gen.C01
 """
 
 
+def _f64(rows):
+    """rows of binary64 bit patterns -> float64 array (vectorised: one case may hold 10^5..10^6 cells)"""
+    return np.array(rows, dtype=np.uint64).view(np.float64) if rows and rows[0] else np.zeros((len(rows), 0))
+
+
+def _bits64(a):
+    """float64 array -> rows of bit patterns (python ints)"""
+    return np.ascontiguousarray(a, dtype=np.float64).view(np.uint64).tolist()
+
+
 # ------------------------------------------------------------------ independent EM parser
 def parse_em(raw):
     """the harness's own reader of the EM byte layout (512-byte header: machine, 2 unused bytes, data-type code, three
@@ -207,7 +223,7 @@ def parse_em(raw):
     nx, ny, nz = struct.unpack("<3i", raw[4:16])
     payload = raw[512:]
     ok = (len(payload) == 4 * nx * ny * nz)
-    data = np.frombuffer(payload[: 4 * (len(payload) // 4)], dtype="<u4").tolist()
+    data = np.frombuffer(payload[: 4 * (len(payload) // 4)], dtype="<u4")
     return dict(machine=machine, dtype=dtype, dims=[nx, ny, nz], size_ok=ok, data=data)
 
 
@@ -335,6 +351,23 @@ def _one(rng, N, tier):
     return case
 
 
+BIG_N = {"quick": [(32769, 40000)], "thorough": [(32769, 40000), (65537, 66000)], "search": [(32769, 34000)]}
+
+
+def _big(rng, N):
+    """a list longer than any plausible conversion block (N > 2^15, in thorough also > 2^16): rows cycle through a small
+    pool of ordinary random rows and every particle is stamped with its own subtomo_id (= position + 1, exact in
+    float32), so a repeated, lost or shifted particle shows in the file's extents, in the cell that carries the stamp
+    and in the loaded table. Plain options (one round trip per path) keep the case cheap."""
+    cols = _perm(rng)
+    pool = [[f2b(_value(rng)) for _ in range(20)] for _ in range(61)]
+    si = cols.index("subtomo_id")
+    rows = []
+    for i in range(N):
+        r = list(pool[i % 61]); r[si] = f2b(float(i + 1)); rows.append(r)
+    return dict(cols=cols, rows=rows, build="dict", wtype=rng.choice([None, "emmotl"]), load="default", path="str", same_path_twice=False, big=True)
+
+
 def generate(rng, tier, n):
     maxn = {"quick": 40, "thorough": 2000, "search": 12}[tier]
     if tier == "thorough":  # every transposition of two columns
@@ -344,6 +377,8 @@ def generate(rng, tier, n):
                 yield dict(cols=cols, rows=[[f2b(float(c + 1)) for c in range(20)], [f2b(_value(rng)) for _ in range(20)]], build="dict")
     for N in FIXED_N[tier]:                            # counts around powers of two / block sizes and one large list, always present
         yield _one(rng, N, "fixed")
+    for lo, hi in BIG_N[tier]:                        # one list beyond 2^15 particles (block-wise writers/readers), always present
+        yield _big(rng, rng.randint(lo, hi))
     if tier in ("quick", "thorough"):                 # the smallest repeated list: N = 2, both particles identical
         two = _one(rng, 2, "fixed"); two["rows"][1] = list(two["rows"][0]); two["dup"] = "two_identical"
         two.pop("reload_keep", None)
@@ -359,6 +394,15 @@ def shrink(case):
     if case.get("malformed"):
         return
     rows = case["rows"]
+    if len(rows) > 5000:
+        # a large list fails for its length (every evaluation costs seconds): only shorter prefixes are tried, from the
+        # shortest up, so the replay ends just above the length at which the failure starts
+        n = len(rows)
+        for m_ in (1, 2, 64, n // 2, 3 * n // 4, 7 * n // 8, 15 * n // 16, 63 * n // 64, 255 * n // 256):
+            if 0 < m_ < n:
+                c = dict(case, rows=rows[:m_]); c.pop("reload_keep", None)
+                yield c
+        return
     base = {k: v for k, v in case.items() if k != "reload_keep"} if case.get("reload_keep") else case
     if len(rows) > 1:
         for sub in (rows[:1], rows[:2], rows[: len(rows) // 2], rows[len(rows) // 2:]):
@@ -408,7 +452,7 @@ def run_impl(case):
     from cryocat import cryomotl
     cols, rows = case["cols"], case["rows"]
     malformed = bool(case.get("malformed"))
-    vals = [[b2f(b) for b in r] for r in rows]
+    vals = _f64(rows).tolist()
     if case.get("build") == "reindex" and not malformed:
         base = pd.DataFrame({c: [v[cols.index(c)] for v in vals] for c in DOCUMENTED}, dtype=float)
         df = base[cols]
@@ -490,7 +534,7 @@ def run_impl(case):
             em = {"hex": open(p, "rb").read().hex()}     # the file itself; judged on bytes by the Lean checker
             m = load(p)
             em["loaded_cols"] = [str(c) for c in m.df.columns]
-            em["loaded"] = [[f2b(x) for x in row] for row in m.df.to_numpy(dtype=float).tolist()]
+            em["loaded"] = _bits64(m.df.to_numpy(dtype=float))
             em["loaded_type"] = type(m).__name__
             em["loaded_dtypes"] = sorted({str(t) for t in m.df.dtypes})
             if case.get("reload_keep") and path_kind == "emmotl" and len(m.df) == len(rows):   # (a wrong particle count is already a finding)
@@ -500,7 +544,7 @@ def run_impl(case):
                 p2 = os.path.join(td, "again.em")
                 m.write_out(p2)
                 m2 = cryomotl.Motl.load(p2)
-                em["reload"] = dict(hex=open(p2, "rb").read().hex(), loaded=[[f2b(x) for x in row] for row in m2.df.to_numpy(dtype=float).tolist()])
+                em["reload"] = dict(hex=open(p2, "rb").read().hex(), loaded=_bits64(m2.df.to_numpy(dtype=float)))
             out[path_kind] = em
     return out
 
@@ -528,10 +572,10 @@ def _expected(case):
     """the property, evaluated independently of model and implementation: per particle the 20 NAMED fields in the
     documented order, missing -> 0, everything else -> its single-precision rounding (float32 bit patterns)"""
     cols, rows = case["cols"], case["rows"]
-    a = np.array([[b2f(dict(zip(cols, r))[f]) for f in DOCUMENTED] for r in rows], dtype=np.float64)
+    a = _f64(rows)[:, [cols.index(f) for f in DOCUMENTED]]     # by NAME: the column of the table that carries field f
     a = np.where(np.isnan(a), 0.0, a)
     with np.errstate(over="ignore", under="ignore"):
-        return a.astype(np.float32).reshape(-1).view(np.uint32).tolist()
+        return np.ascontiguousarray(a.astype(np.float32)).reshape(-1).view(np.uint32)
 
 
 def _same32(a, b):
@@ -540,9 +584,7 @@ def _same32(a, b):
     Returns the first differing index or None."""
     if len(a) != len(b):
         return min(len(a), len(b))
-    if a == b:
-        return None
-    x, y = np.array(a, dtype=np.uint64), np.array(b, dtype=np.uint64)
+    x, y = np.asarray(a, dtype=np.uint64), np.asarray(b, dtype=np.uint64)
     bad = (x != y) & ~(((x & 0x7FFFFFFF) == 0) & ((y & 0x7FFFFFFF) == 0))
     idx = np.flatnonzero(bad)
     return int(idx[0]) if len(idx) else None
@@ -550,12 +592,11 @@ def _same32(a, b):
 
 def _same64(a, b):
     """the same for float64 bit patterns (rows of the loaded table)"""
-    fa = [x for r in a for x in r]; fb = [x for r in b for x in r]
     if [len(r) for r in a] != [len(r) for r in b]:
         return 0
-    if fa == fb:
+    if a == b:
         return None
-    x, y = np.array(fa, dtype=np.uint64), np.array(fb, dtype=np.uint64)
+    x, y = np.array(a, dtype=np.uint64).reshape(-1), np.array(b, dtype=np.uint64).reshape(-1)
     m = np.uint64(0x7FFFFFFFFFFFFFFF)
     bad = (x != y) & ~(((x & m) == 0) & ((y & m) == 0))
     idx = np.flatnonzero(bad)
@@ -563,7 +604,8 @@ def _same64(a, b):
 
 
 def _widen(bits32):
-    return [[f2b(float(v)) for v in np.array(bits32[20 * i:20 * i + 20], dtype=np.uint32).view(np.float32)] for i in range(len(bits32) // 20)]
+    w = np.asarray(bits32, dtype=np.uint32)
+    return _bits64(w[: 20 * (len(w) // 20)].view(np.float32).astype(np.float64).reshape(-1, 20))
 
 
 def _file_findings(k, raw, exp, n, verdict, model_file, clause_shape, clause_value):
@@ -578,7 +620,7 @@ def _file_findings(k, raw, exp, n, verdict, model_file, clause_shape, clause_val
     else:
         i = _same32(em["data"], exp)
         if i is not None:
-            py = (clause_value, f"{k}: particle {i//20} field {DOCUMENTED[i%20]}: file holds bits {em['data'][i]:#x}, property demands {exp[i]:#x}")
+            py = (clause_value, f"{k}: particle {i//20} field {DOCUMENTED[i%20]}: file holds bits {int(em['data'][i]):#x}, property demands {int(exp[i]):#x}")
     if v is None:
         out.append(dict(kind="corr", clause="no-verdict", detail=f"{k}: the driver returned no verdict for this file: {verdict}"))
         if py:
@@ -601,7 +643,7 @@ def _file_findings(k, raw, exp, n, verdict, model_file, clause_shape, clause_val
         if mraw[:512] != raw[:512]:
             j = next((j for j in range(min(512, len(raw))) if mraw[j] != raw[j]), min(512, len(raw)))
             out.append(dict(kind="corr", clause="file-vs-model", detail=f"{k}: header byte {j} differs from the model's encodeEm ({raw[j:j+1].hex()} vs {mraw[j:j+1].hex()})"))
-        elif len(mraw) != len(raw) or _same32(np.frombuffer(mraw[512:], dtype="<u4").tolist(), em["data"]) is not None:
+        elif len(mraw) != len(raw) or _same32(np.frombuffer(mraw[512:], dtype="<u4"), em["data"]) is not None:
             out.append(dict(kind="corr", clause="file-vs-model", detail=f"{k}: payload differs from the model's encodeEm(writeGen)"))
     return out
 
@@ -640,7 +682,7 @@ def judge(case, obs, resps):
             out.append(dict(kind="spec", clause="loaded-values", detail=f"{k}: loaded table has column dtypes {o.get('loaded_dtypes')} (numbers expected)"))
         if "reload" in o:
             keep = case["reload_keep"]
-            exp2 = [b for i in keep for b in exp[20 * i:20 * i + 20]]
+            exp2 = exp.reshape(-1, 20)[keep].reshape(-1)
             r2 = o["reload"]
             m2 = resps[1] if len(resps) > 1 and "error" not in resps[1] else None
             f2 = _file_findings(k + "/after load, drop particles, write again", bytes.fromhex(r2["hex"]), exp2, len(keep),
@@ -668,18 +710,18 @@ def judge(case, obs, resps):
 def nontrivial(case, obs):
     if case.get("malformed") or len(case["rows"]) < 2 or case["cols"] == DOCUMENTED:
         return False
-    vals = [b2f(b) for r in case["rows"] for b in r]
-    has_nan = any(math.isnan(v) for v in vals)
-    with np.errstate(over="ignore", under="ignore"):
-        inexact = any((not math.isnan(v)) and float(np.float32(v)) != v for v in vals)
-    return has_nan and inexact
+    vals = _f64(case["rows"])
+    nan = np.isnan(vals)
+    with np.errstate(over="ignore", under="ignore", invalid="ignore"):
+        inexact = bool(((vals.astype(np.float32).astype(np.float64) != vals) & ~nan).any())
+    return bool(nan.any()) and inexact
 
 
 def stats(case, obs, resps):
     n = len(case["rows"])
     perm = "malformed" if case.get("malformed") else ("identity" if case["cols"] == DOCUMENTED else
             ("transposition" if sum(a != b for a, b in zip(case["cols"], DOCUMENTED)) == 2 else "shuffle"))
-    nb = "1" if n == 1 else ("20" if n == 20 else ("2-10" if n <= 10 else ("11-40" if n <= 40 else ("41-999" if n < 1000 else ("1000-4095" if n < 4096 else ">=4096")))))
+    nb = "1" if n == 1 else ("20" if n == 20 else ("2-10" if n <= 10 else ("11-40" if n <= 40 else ("41-999" if n < 1000 else ("1000-4095" if n < 4096 else ("4096-32768" if n <= 32768 else ">32768"))))))
     return {"N": nb, "perm": perm, "build": case.get("build", "dict"),
             "history": "load-drop-write" if case.get("reload_keep") else "single round trip",
             "row_index": case.get("index", "default"), "write_type": str(case.get("wtype", "emmotl")), "load_call": case.get("load", "default"),
@@ -687,7 +729,7 @@ def stats(case, obs, resps):
             "repeated_rows": case.get("dup", "none"), "int64_columns": len(case.get("int_cols") or []),
             "late_nan_dropped": sum(1 for o in obs.values() if isinstance(o, dict) and "dropped" in o) if isinstance(obs, dict) else 0,
             "reject_type": [o["reject"] for o in obs.values() if isinstance(o, dict) and "reject" in o] if isinstance(obs, dict) else [],
-            "all_nan_row": any(all(math.isnan(b2f(b)) for b in r) for r in case["rows"])}
+            "all_nan_row": bool(np.isnan(_f64(case["rows"])).all(axis=1).any()), "beyond_2^15_particles": n > 32768}
 
 
 def sample_view(case):
